@@ -16,10 +16,20 @@ arguments, inline arrays, array accesses with constant / non-constant / unknown 
 including the "first assignment" rule, and phi nodes; the short-circuit `changed` flags only skip work.
 Propagation changes annotations only (`C07_degree_unchanged`).
 
-Not a Lean theorem: the lifting to all execution paths (that the environment stays in agreement along
-the passes); decided per run by `checks/c07.py` (correspondence + least-fixpoint oracle).
+Path level (`Lemmas/PathDegrees.lean`): for every SSA CFG meeting the decidable well-formedness `WfD`
+(a local has one substitution; no variable is declared both local and non-local; parameters are not
+assigned; before every element-wise update of `v` the block order has already passed a substitution to
+`v` and a non-local declaration of `v` if the program has any — what the "first assignment to the array"
+rule relies on; all evaluated on every real dump by `csmodel pathhyps`), every budget `k` of passes and
+every degree state any execution can reach (signals/components always degree 1, template parameters
+constants, any substitution to a local executed in any order any number of times), every range on every
+node of the CFG returned by `degLoop k` bounds the node's degree in Circom's algebra (`C07_path_sound`);
+in particular the right-hand side of an assignment annotated `quadratic` is at most quadratic in every
+execution (`C07_assignment_rhs`).  The tie to the code is decided per run by `checks/c07.py`
+(correspondence + least-fixpoint oracle).
 -/
 import Circomspect.Lemmas.DegreeLemmas
+import Circomspect.Lemmas.PathDegrees
 
 namespace Circomspect.C07
 open Circomspect Gen Algebra Propagate Ir
@@ -76,5 +86,66 @@ example : algPrefix "compl" 1 = 3 ∧ algPrefix "not" 1 = 3 ∧ degPrefix "compl
 /-! non-vacuity: `in * in` with `in` linear gets the range (2, 2), which bounds its degree 2 -/
 example : (degExpr ⟨[(⟨"in", none, none⟩, (1, 1))], [], []⟩
     (.infix {} "mul" (.var { deg := some (1, 1) } ⟨"in", none, none⟩) (.var { deg := some (1, 1) } ⟨"in", none, none⟩))).1.ann.deg = some (2, 2) := by decide
+
+/-- **path level**: after any number `k` of passes over an unannotated well-formed SSA CFG, every degree
+    range on every statement bounds the node's degree in every reachable degree state -/
+theorem C07_path_sound (cfg : Cfg) (wf : WfD (programOf cfg) cfg.params)
+    (hclean : ∀ s, s ∈ stmtsOf cfg.blocks → NoDegS s) (k : Nat) :
+    ∀ δ, ReachD (programOf cfg) cfg.params cfg.isFunction δ →
+      ∀ s, s ∈ stmtsOf (degLoop k (degInit cfg) cfg.blocks).1 → SoundSD δ s :=
+  degree_path_sound cfg wf hclean k
+
+/-- the right-hand side of an assignment whose range is `r` has degree at most `r.2` in every reachable
+    state: the advice `<-- is not necessary here` (upper end ≤ 2) is only given for right-hand sides that
+    are at most quadratic in every execution -/
+theorem C07_assignment_rhs (cfg : Cfg) (wf : WfD (programOf cfg) cfg.params)
+    (hclean : ∀ s, s ∈ stmtsOf cfg.blocks → NoDegS s) (k : Nat)
+    (a : Ann) (v : VName) (ty : Option VType) (op : String) (rhe : Expr)
+    (hs : Stmt.sub a v ty op rhe ∈ stmtsOf (degLoop k (degInit cfg) cfg.blocks).1)
+    (r : Ir.Range) (hr : rhe.ann.deg = some r) :
+    ∀ δ, ReachD (programOf cfg) cfg.params cfg.isFunction δ → degE δ rhe ≤ r.2 := by
+  intro δ hδ
+  have := C07_path_sound cfg wf hclean k δ hδ _ hs
+  unfold SoundSD at this
+  exact (soundD_top δ FTop rhe this r hr).1
+
+/-- the decidable form of the hypothesis -/
+theorem C07_wfD_decidable (E : List Stmt) (ps : List VName) (h : wfDB E ps = true) : WfD E ps := wfDB_sound E ps h
+
+/-! non-vacuity of the path theorem: `signal in, out; var x; x = in * in; out <-- x * in` — the hypotheses
+    hold, the first right-hand side gets the range (2, 2), the second (3, 3), and the degree state
+    `in ↦ 1, x ↦ 2` is reachable. -/
+section NonVacuity
+private def vin : VName := ⟨"in", none, none⟩
+private def vout : VName := ⟨"out", none, none⟩
+private def vx : VName := ⟨"x", none, some 0⟩
+private def demo : Cfg := { isFunction := false, params := [], blocks := [{ stmts := [
+  .decl [vin] .signal [], .decl [vout] .signal [], .decl [vx] .local_ [],
+  .sub {} vx (some .local_) "=" (.infix {} "mul" (.var {} vin) (.var {} vin)),
+  .sub {} vout (some .signal) "<--" (.infix {} "mul" (.var {} vx) (.var {} vin))] }] }
+
+example : wfDB (programOf demo) demo.params = true := by decide
+example : ((stmtsOf (degLoop 30 (degInit demo) demo.blocks).1).map
+    (fun s => match s with | .sub _ _ _ _ rhe => rhe.ann.deg | _ => none)) = [none, none, none, some (2, 2), some (3, 3)] := by decide
+example : ∃ δ, ReachD (programOf demo) demo.params demo.isFunction δ ∧ δ vin = 1 ∧ δ vx = 2 := by
+  let δ₀ : DState := fun v => if v = vin ∨ v = vout then 1 else 0
+  have hnl : ∀ v, NonLocal (programOf demo) v ↔ (v = vin ∨ v = vout) := by
+    intro v
+    rw [← nonLocalB_iff]
+    simp [nonLocalB, programOf, stmtsOf, demo, eraseS, declaresNLB]
+  have h0 : ReachD (programOf demo) demo.params demo.isFunction δ₀ := by
+    refine .init _ ⟨?_, ?_, ?_, ?_⟩
+    · intro v; simp only [δ₀]; split <;> omega
+    · intro v hv; simp only [δ₀]; rw [if_pos ((hnl v).mp hv)]
+    · intro v hv; cases hv
+    · intro v hv _; simp only [δ₀]; rw [if_neg (fun h => hv ((hnl v).mpr h))]
+  have h1 := ReachD.step _ _ h0 (StepD.assign δ₀ {} vx (some .local_) "=" (.infix {} "mul" (.var {} vin) (.var {} vin)) 2
+    (by simp [programOf, stmtsOf, demo, eraseS, erase])
+    (by rw [hnl]; simp [vx, vin, vout])
+    (by simp [degE, δ₀, alg, vin]))
+  refine ⟨_, h1, ?_, ?_⟩
+  · simp [DState.set, δ₀, vin, vx]
+  · simp [DState.set]
+end NonVacuity
 
 end Circomspect.C07
